@@ -2,7 +2,9 @@
 // writes canonical observation lines. Every API call that may panic runs under catch_unwind.
 mod common;
 mod net;
+mod ops;
 mod sched;
+mod search;
 mod solve;
 mod tour;
 mod trans;
@@ -38,6 +40,9 @@ fn main() {
         "tour" => tour::run(&case, &mut out),
         "solve" => solve::run(&case, &mut out),
         "trans" => trans::run(&case, &mut out),
+        "ops" => ops::run(&case, &mut out),
+        "lsearch" => search::run_lsearch(&case, &mut out),
+        "neigh" => search::run_neigh(&case, &mut out),
         _ => {
             eprintln!("unknown command {}", cmd);
             std::process::exit(2);
